@@ -270,7 +270,11 @@ where
         environment: &chalk_ir::Environment<I>,
     ) -> chalk_ir::ProgramClauses<I> {
         self.record_all(id_collector::collect_ids(self.ws.db(), environment));
-        self.ws.db().program_clauses_for_env(environment)
+        // Elaborate the environment through `self` rather than through the wrapped
+        // database: the definitions the elaboration consults (supertraits, where
+        // clauses of the types and traits in the hypotheses) decide its result and
+        // have to be recorded like everything else the solver asks about.
+        crate::clauses::program_clauses_for_env(self, environment)
     }
 
     fn interner(&self) -> I {
